@@ -351,6 +351,10 @@ theorem multimooraScore_row_perm' {m : ℕ} (R : Fin m → List ℕ) (h3 : ∀ i
     simp only [mem_filter, mem_univ, true_and, Equiv.apply_symm_apply]
     exact ⟨fun h => hk.1 (by rw [← h]; simp), hk.2⟩
 
+/-- row `i` of MultiMOORA's rank matrix: the ranks of alternative `i` under RatioMOORA, ReferencePointMOORA, FMF -/
+noncomputable def multimooraRows {m n : ℕ} [NeZero m] [NeZero n] (A : Mat m n ℝ) (o : Vec n Obj) (w : Vec n ℝ) : Fin m → List ℕ :=
+  fun i => [rankVec true (ratio A o w) i, rankVec false (refpoint A o w) i, rankVec true (fmfCode A o w) i]
+
 theorem rankMatrix_ofFn {m : ℕ} (r1 r2 r3 : Fin m → ℕ) :
     rankMatrix (List.ofFn r1) (List.ofFn r2) (List.ofFn r3) = List.ofFn fun i => [r1 i, r2 i, r3 i] := by
   apply List.ext_getElem
